@@ -47,6 +47,7 @@ def _shapes(tier):
     # the tall thin slice: degree up to 6, up to 12 (thorough 20) control points
     from .. import util_knots as K
     out += K.tall_curve_shapes(tier)
+    out += K.variety_shapes(tier, pdims=(1, 2))
     degs = [1, 2, 3]
     for pu, pv in itertools.product(degs, degs):
         ru = A.rep_kvs(pu, 1)[:3] if q else A.rep_kvs(pu, 1)
@@ -79,7 +80,7 @@ def _insert_params(p, kv):
             if a > kv[p]:
                 out.append(a)
             out.append(a + (b - a) / 2.0)
-    out.append(1.0 / 3.0)
+    out.append(kv[p] + (kv[n] - kv[p]) / 3.0)
     seen, res = set(), []
     for u in out:
         if u not in seen:
@@ -365,7 +366,8 @@ def _multi_dir(case, ctx):
             prm = [None] * pd
             num = [0] * pd
             for a in sub:
-                prm[a], num[a] = vals[a], cnt
+                lo, hi = float(model0['kvs'][a][desc['degrees'][a]]), float(model0['kvs'][a][-(desc['degrees'][a] + 1)])
+                prm[a], num[a] = (vals[a] if (lo, hi) == (0.0, 1.0) else lo + (hi - lo) * vals[a]), cnt     # inside the domain
             feats = dict(pdim=pd, rational=desc['rational'], directions=''.join(NM[a] for a in sub), count=cnt, via='operations')
             rc = dict(case, only=[list(sub), cnt])
             try:
